@@ -888,7 +888,9 @@ class Emit:
                     if op in ('sdiv', 'srem'):
                         o.append('    VP_CHECK(!(%s == -1 && %s == %s), "ub.sdiv_overflow");' % (s.sx(b, n), s.sx(a, n), '(%s)((%s)1 << %d)' % (csint(n), cint(n), n-1)))
                 if op in ('shl', 'lshr', 'ashr'):
-                    o.append('    VP_CHECK(%s < %d, "ub.shift_range");' % (b, n))
+                    # a shift by >= width yields poison (not immediate UB; clang speculates such shifts): model as an arbitrary value
+                    o.append('    if (%s < %d) { %s = %s; } else { %s = %s; }' % (b, n, d, s.binop(op, t, a, b), d, s.nondet(t)))
+                    return
                 if 'nsw' in I['flags'] and op in ('add', 'sub', 'mul') and n <= 64:
                     W = '__int128' if n > 32 else 'int64_t'
                     e = '((%s)%s %s (%s)%s)' % (W, s.sx(a, n), {'add': '+', 'sub': '-', 'mul': '*'}[op], W, s.sx(b, n))
@@ -924,9 +926,12 @@ class Emit:
         elif op in ('trunc', 'zext', 'sext', 'fptrunc', 'fpext', 'fptoui', 'fptosi', 'uitofp', 'sitofp', 'ptrtoint', 'inttoptr', 'bitcast', 'addrspacecast'):
             a = V(I['a'], I['ft'])
             if chk and op in ('fptoui', 'fptosi'):
+                # out-of-range float->int conversion yields poison (clang speculates it under a select): arbitrary value
                 n = I['tt'].n
-                if op == 'fptoui': o.append('    VP_CHECK(%s > -1.0 && %s < %s, "ub.fp_to_int_range");' % (a, a, float.hex(2.0 ** n)))
-                else: o.append('    VP_CHECK(%s > %s && %s < %s, "ub.fp_to_int_range");' % (a, float.hex(-(2.0 ** (n-1)) - 1), a, float.hex(2.0 ** (n-1))))
+                if op == 'fptoui': cond = '(%s > -1.0 && %s < %s)' % (a, a, float.hex(2.0 ** n))
+                else: cond = '(%s > %s && %s < %s)' % (a, float.hex(-(2.0 ** (n-1)) - 1), a, float.hex(2.0 ** (n-1)))
+                o.append('    if %s { %s = %s; } else { %s = %s; }' % (cond, d, s.cast(op, I['ft'], a, I['tt']), d, s.nondet(I['tt'])))
+                return
             o.append('    %s = %s;' % (d, s.cast(op, I['ft'], a, I['tt'])))
         elif op == 'select':
             o.append('    %s = %s ? %s : %s;' % (d, V(I['c'], I['ct']), V(I['a'], I['ty']), V(I['b'], I['ty'])))
@@ -1044,7 +1049,7 @@ class Emit:
     def emit_call(s, I, lbl, o):
         d = 'v_' + mangle(I['dst']) if I['dst'] else None
         cal = I['callee']
-        args = [s.val(av, at) for at, av in I['args']]
+        args = ['0' if isinstance(at, Meta) else s.val(av, at) for at, av in I['args']]
         rt = I['rt']
         name = cal[1] if cal[0] == 'ref' and cal[1][0] == '@' else None
         maythrow = True
